@@ -70,6 +70,10 @@ def units(ctx):
     yield from hist.hist_units()
     yield ("extremes",)
     yield ("long",)
+    for beats in (45, 100, 250):
+        for lead in range(9):
+            yield ("chorale", beats, lead)
+    yield ("slices",)
 
 
 def _mk(notes):
@@ -96,6 +100,31 @@ def gen_cases(unit, ctx):
                     for build in ("abs", "rel"):
                         yield {"notes": [list(x) for x in ns], "events": [["ts", 0, 3, 4], ["ks", step * n // 2, "G"]],
                                "dur": end + 10, "caps": caps, "build": build}
+        return
+    if kind == "chorale":
+        # scale: four channels changing notes on every beat (eight note messages on one tick at every boundary), one voice
+        # holding every second note over the beat; 0-8 leading events shift every later message index by one
+        _, beats, lead = unit
+        ns = []
+        for b in range(beats):
+            for v, ch in enumerate((c0, c1, 9, 3)):
+                if v == 3 and b % 2:
+                    continue
+                ns.append([24 * b, 48 if (v == 3) else 24, p - 3 + v * 2 + (b % 2), ch, 20 + (b * 4 + v) % 100])
+        events = [["pc", 0, k] for k in range(lead)]
+        end = 24 * beats + 24
+        for caps in ([24] * (beats + 2), [96] * (beats // 4 + 1), [24, 48, 72] * (beats // 6 + 1), [end - 24], [960]):
+            for build in ("abs", "rel"):
+                yield {"notes": ns, "events": events, "dur": end, "caps": caps, "build": build}
+        return
+    if kind == "slices":
+        # scale in the number of pieces: one call returning more than a thousand pieces
+        ns = []
+        for b in range(330):
+            for v, ch in enumerate((c0, c1, 9)):
+                ns.append([24 * b, 24 if v else 20, p - 3 + v * 2 + (b % 2), ch, 20 + (b * 4 + v) % 100])
+        for caps in ([6] * 1320, [5, 7, 12] * 330, [24] * 330):
+            yield {"notes": ns, "events": [["ts", 0, 3, 4]], "dur": 7920, "caps": caps, "build": "rel"}
         return
     if kind == "hist":
         for h in hist.hist_of_unit(unit):
